@@ -14,16 +14,18 @@ IS_MAPPING = "py(lambda d: isinstance(d, CollectionsMapping), data)"
 IS_STR = "py(lambda d: type(d) is str, data)"
 ITERABLE = "py(lambda d: ctor_ok(iter, d), data)"
 EXCLUDED = f"(strict_coercion and ({IS_MAPPING} or {IS_STR}))"
-ALL_OK = "forall(lambda j: implies(0 <= j and j < len(data), ok(arg_loader, data[j])))"
-FIRST_FAIL = ("(0 <= {k} and {k} < len(data) and not ok(arg_loader, data[{k}]) and "
-              "forall(lambda j: implies(0 <= j and j < {k}, ok(arg_loader, data[j]))))")
+N = "len(elems(data))"
+EL = "elems(data)"
+ALL_OK = f"forall(lambda j: implies(0 <= j and j < {N}, ok(arg_loader, {EL}[j])))"
+FIRST_FAIL = ("(0 <= {k} and {k} < len(elems(data)) and not ok(arg_loader, elems(data)[{k}]) and "
+              "forall(lambda j: implies(0 <= j and j < {k}, ok(arg_loader, elems(data)[j]))))")
 
 POST = {
     # ---- C02 / C06 / C07: what is accepted and what is returned (mode independent)
     "accept-iff": f"returned == (not {EXCLUDED} and {ITERABLE} and {ALL_OK})",
-    "value": ("implies(returned, result is construct(iter_factory, built_from(result)) and "
-              "len(built_from(result)) == len(data) and "
-              "forall(lambda j: implies(0 <= j and j < len(data), built_from(result)[j] is res(arg_loader, data[j]))))"),
+    "value": (f"implies(returned, result == construct(iter_factory, built_from(result)) and "
+              f"len(built_from(result)) == {N} and "
+              f"forall(lambda j: implies(0 <= j and j < {N}, built_from(result)[j] == res(arg_loader, {EL}[j]))))"),
     "fresh-result": "implies(returned, is_fresh(result))",
     # ---- C04
     "raises-closed": "implies(raised, isinstance(exc, LoadError))",
@@ -33,18 +35,18 @@ POST = {
 }
 ELEM_FAIL = f"(raised and not {EXCLUDED} and {ITERABLE})"
 POST_DISABLE = {
-    "first-error": f"implies({ELEM_FAIL}, exists(lambda k: {FIRST_FAIL.format(k='k')} and is_err(exc, arg_loader, data[k]) and trail_unchanged(exc)))",
+    "first-error": f"implies({ELEM_FAIL}, exists(lambda k: {FIRST_FAIL.format(k='k')} and is_err(exc, arg_loader, elems(data)[k]) and trail_unchanged(exc)))",
 }
 POST_FIRST = {
-    "first-error": f"implies({ELEM_FAIL}, exists(lambda k: {FIRST_FAIL.format(k='k')} and is_err(exc, arg_loader, data[k]) and trail_top_is(exc, k)))",
+    "first-error": f"implies({ELEM_FAIL}, exists(lambda k: {FIRST_FAIL.format(k='k')} and is_err(exc, arg_loader, elems(data)[k]) and trail_top_is(exc, k)))",
 }
 SUB = "exc.exceptions"
 POST_ALL = {
     "agg-class": f"implies({ELEM_FAIL}, type(exc) is AggregateLoadError)",
     "agg-sound": (f"implies({ELEM_FAIL}, forall(lambda k: implies(0 <= k and k < len({SUB}), "
-                  f"elem_error({SUB}[k], arg_loader, data, len(data)))))"),
-    "agg-complete": (f"implies({ELEM_FAIL}, forall(lambda j: implies(0 <= j and j < len(data) and not ok(arg_loader, data[j]), "
-                     f"exists(lambda k: 0 <= k and k < len({SUB}) and is_err({SUB}[k], arg_loader, data[j]) and trail_top_is({SUB}[k], j)))))"),
+                  f"elem_error({SUB}[k], arg_loader, {EL}, {N}))))"),
+    "agg-complete": (f"implies({ELEM_FAIL}, forall(lambda j: implies(0 <= j and j < {N} and not ok(arg_loader, {EL}[j]), "
+                     f"exists(lambda k: 0 <= k and k < len({SUB}) and is_err({SUB}[k], arg_loader, {EL}[j]) and trail_top_is({SUB}[k], j)))))"),
     "agg-once": (f"implies({ELEM_FAIL}, forall(lambda k1, k2: implies(0 <= k1 and k1 < k2 and k2 < len({SUB}), "
                  f"top_index({SUB}[k1]) < top_index({SUB}[k2]))))"),
 }
@@ -58,12 +60,12 @@ LOOPS = {
     ("iter_loader_dt_first", 0): LoopSpec(
         binds={"idx": "_i"},
         inv=["len(yielded) == _i",
-             "forall(lambda j: implies(0 <= j and j < _i, ok(loader, iterable[j]) and yielded[j] is res(loader, iterable[j])))"]),
+             "forall(lambda j: implies(0 <= j and j < _i, ok(loader, iterable[j]) and yielded[j] == res(loader, iterable[j])))"]),
     ("iter_loader_dt_all", 0): LoopSpec(
         binds={"idx": "_i"}, havoc_trails=True,
         inv=["has_unexpected_error == False",
              f"implies(len({E}) == 0, len(yielded) == _i)",
-             f"implies(len({E}) == 0, forall(lambda j: implies(0 <= j and j < _i, ok(loader, iterable[j]) and yielded[j] is res(loader, iterable[j]))))",
+             f"implies(len({E}) == 0, forall(lambda j: implies(0 <= j and j < _i, ok(loader, iterable[j]) and yielded[j] == res(loader, iterable[j]))))",
              f"forall(lambda k: implies(0 <= k and k < len({E}), elem_error({E}[k], loader, iterable, _i)))",
              f"forall(lambda j: implies(0 <= j and j < _i and not ok(loader, iterable[j]), exists(lambda k: 0 <= k and k < len({E}) "
              f"and is_err({E}[k], loader, iterable[j]) and trail_top_is({E}[k], j))))",
